@@ -188,6 +188,23 @@ func c02Check(c *run.Ctx, st *c02State, b []byte, family string, salt uint64) []
 		rect = image.Rectangle{} // an empty target: the scale is zero
 	case 1:
 		rect = image.Rect(7, 7, 7, 7+h) // zero width only
+	case 2:
+		// empty because the corners are the wrong way round in one dimension or in
+		// both (a struct literal; image.Rect would have swapped them): still nothing
+		// to draw into, and never a negative size for the rasterizer
+		rect = image.Rectangle{Min: image.Pt(3+w, 5), Max: image.Pt(3, 5+h)}
+		c.Count("renders_into_inverted_rectangles", 1)
+	case 3:
+		rect = image.Rectangle{Min: image.Pt(3, 5+h), Max: image.Pt(3+w, 5)}
+		c.Count("renders_into_inverted_rectangles", 1)
+	case 4:
+		rect = image.Rectangle{Min: image.Pt(3+w, 5+h), Max: image.Pt(3, 5)}
+		c.Count("renders_into_inverted_rectangles", 1)
+	}
+	st.rz.OnReset = func(rw, rh int) {
+		if rw < 0 || rh < 0 {
+			fail("rasterizer-reset-with-a-negative-size", map[string]interface{}{"w": rw, "h": rh, "target": rect.String()})
+		}
 	}
 	st.rz.ResetLog()
 	st.rz.Discard = true
